@@ -426,7 +426,7 @@ def cli_part(chk, scratch, n_pairs):
         w.write_bam(os.path.join(d, "r.bam"))
         home = os.path.join(d, "home")
         opts = ["-d", ("nanopore", "pacbio_ccs", "assembly")[i % 3], "-g", os.path.join(d, "a.gtf"), "--complete_genedb",
-                "-r", os.path.join(d, "g.fa"), "-t", "2", "--no_gzip", "--force"]
+                "-r", os.path.join(d, "g.fa"), "-t", str(1 + i % 2), "--no_gzip", "--force"]
         if i % 2 == 0:
             opts += ["--count_exons", "--read_group", "tag:RG", "--bam_tags", "RG"]
         if i % 3 == 1:
